@@ -11,6 +11,7 @@ CONSTANTS
   Inputs(_, _, _),  \* (kind, state, ghost) -> finite set of input records of that kind offered there
   Bal0,          \* initial balance of every user: [Users -> [Denoms -> Nat]]
   Params0,       \* initial module parameters
+  NL,            \* number of registered hook listeners (C17); 0 in most instances
   KeepHist,      \* TRUE: hist records every input (generators); FALSE: stays empty
   GenDepth,      \* generators: behaviour length at which the input history is written out
   GenDir,        \* generators: directory for the emitted behaviours
@@ -19,8 +20,8 @@ CONSTANTS
 VARIABLES st, act, res, xfers, hooks, extra, ghost, hist
 vars == <<st, act, res, xfers, hooks, extra, ghost, hist>>
 
-S0 == InitState(Bal0, Params0, FALSE)
-InitAct == [a |-> "Init", users |-> UserSeq, na |-> NA, grid |-> D, bal0 |-> Bal0, params |-> Params0]
+S0 == [InitState(Bal0, Params0, FALSE) EXCEPT !.nl = NL]
+InitAct == [a |-> "Init", users |-> UserSeq, na |-> NA, grid |-> D, bal0 |-> Bal0, params |-> Params0, listeners |-> NL]
 NoExtra == [panic |-> FALSE, nx |-> 0, validate_ok |-> TRUE]
 
 Init ==
@@ -109,6 +110,7 @@ P_C12 == [][StepHolds(ByProp.C12)]_vars
 P_C13 == [][StepHolds(ByProp.C13)]_vars
 P_C15 == [][StepHolds(ByProp.C15)]_vars
 P_C16 == [][StepHolds(ByProp.C16)]_vars
+P_C17 == [][StepHolds(ByProp.C17)]_vars
 P_C18 == [][StepHolds(ByProp.C18)]_vars
 P_C19 == [][StepHolds(ByProp.C19)]_vars
 
@@ -118,6 +120,6 @@ NoNegative == \A x \in Accts : \A d \in Denoms : st.bal[x][d] >= 0
 
 (* generators: write the input history of every behaviour of length GenDepth *)
 EmitHist ==
-  (KeepHist /\ Len(hist) = GenDepth) =>
+  (KeepHist /\ Len(hist) > 0 /\ (Len(hist) = GenDepth \/ \A k \in AllKinds : Inputs(k, st, ghost) = {})) =>
      JsonSerialize(GenDir \o "/b_" \o ToString(TLCGet("stats").traces) \o ".json", <<InitAct>> \o hist)
 =============================================================================
